@@ -95,6 +95,12 @@ type Session struct {
 	ChanLog string `json:"chan_log,omitempty"`
 	LogK    int    `json:"log_k,omitempty"`
 	LogCap  int    `json:"log_cap,omitempty"`
+	// ConnTimeoutMs: the connection-wide operation timeout (options.WithTimeoutOps at construction;
+	// default in these sessions: 5 s); every call of such a session carries its own per-operation
+	// timeout and only methods that accept one are used. Plan pause: the head of the reply (HeadPct)
+	// goes out after the call's last write, the tail TailAtMs after the call started - a server that
+	// pauses mid-reply for 1.5-3 x the connection-wide timeout, well inside the call's own 5 s.
+	ConnTimeoutMs int `json:"conn_timeout_ms,omitempty"`
 	// SlowLogUs: a debug logger that takes this long for every "channel read" line, i.e. a NETCONF
 	// read loop that runs behind the channel's read loop (schedule perturbation through the
 	// public logging hook)
@@ -308,6 +314,8 @@ func GenSession(r *rand.Rand, idx int) Session {
 	switch {
 	case idx%5 == 2: // a fixed share of sessions with replies that straddle the caller's deadline
 		s.Profile = "straddle"
+	case idx%17 == 5: // short connection-wide timeout, long per-call timeouts, server pauses mid-reply
+		s.Profile = "pause"
 	case idx%13 == 9 || idx%24 == 23: // requests of 16-70 KB, lengths swept across multiples of 16 384 (idx%24==23: always 1.1 + echo)
 		s.Profile = "bigreq"
 	case idx%11 == 6: // quiet periods longer than the previous call's timeout
@@ -363,6 +371,10 @@ func GenSession(r *rand.Rand, idx int) Session {
 	case "forced":
 		n = 4 + r.Intn(5)
 		s.Seg = segs[r.Intn(len(segs))]
+	case "pause":
+		n = 4 + r.Intn(3)
+		s.Seg = segs[r.Intn(len(segs))]
+		s.ConnTimeoutMs = 200 + r.Intn(201)
 	case "bigreq":
 		n = 8
 		s.Seg = []devsim.Seg{{Mode: "whole"}, {Mode: "fixed", Size: 4096}, {Mode: "fixed", Size: 700}, {Mode: "mix", Size: 4096}}[r.Intn(4)]
@@ -414,7 +426,7 @@ func GenSession(r *rand.Rand, idx int) Session {
 		maxFill = 120
 	case s.Profile == "long":
 		maxFill = 200
-	case s.Profile == "straddle", s.Profile == "big", s.Profile == "race", s.Profile == "forced", s.Profile == "idle", s.Profile == "bigreq":
+	case s.Profile == "straddle", s.Profile == "big", s.Profile == "race", s.Profile == "forced", s.Profile == "idle", s.Profile == "bigreq", s.Profile == "pause":
 		maxFill = 300
 	}
 	releases := []string{"before-next", "before-next", "with-next-before", "next-write-1", "next-write-2", "after-next", "after-2", "at-end"}
@@ -459,6 +471,19 @@ func GenSession(r *rand.Rand, idx int) Session {
 				c.Plan, huge = "now", true // no-timeout variant
 			case q < 90:
 				c.Plan = "now"
+			default:
+				c.Plan = "never"
+			}
+		case "pause":
+			switch {
+			case k == n-1:
+				c.Plan = "now"
+			case q < 55:
+				c.Plan = "pause"
+			case q < 85:
+				c.Plan = "now"
+			case q < 93:
+				c.Plan = "late"
 			default:
 				c.Plan = "never"
 			}
@@ -567,6 +592,15 @@ func GenSession(r *rand.Rand, idx int) Session {
 				len(`<edit-config><target><candidate></candidate></target>`) + len(head) + len(tail) + len(`</edit-config></rpc>`)
 			c.Arg = head + randStr(r, nameAlpha+" ", bigReqM*16384-2+k-overhead) + tail
 		}
+		if s.Profile == "pause" && c.Plan != "local" {
+			// only methods that take a per-operation timeout
+			switch c.Kind {
+			case "get", "get-xpath", "get-config", "get-config-filter", "commit", "commit-confirmed", "rpc":
+			default:
+				c.Kind = []string{"get-config", "commit", "get-config", "commit-confirmed"}[r.Intn(4)]
+				c.Arg = ""
+			}
+		}
 		c.Nonce = fmt.Sprintf("nx%s-%03d-%08x", tag, k, r.Uint32())
 		c.Shape = []int{0, 0, 0, 1, 2, 3, 4, 5}[r.Intn(8)]
 		c.Body = []string{"data", "data", "ok", "error"}[r.Intn(4)]
@@ -622,7 +656,7 @@ func GenSession(r *rand.Rand, idx int) Session {
 			}
 		}
 		hashOK := (s.Seg.Mode == "whole" || (s.Seg.Mode == "fixed" && s.Seg.Size >= 4096)) && (s.TTY == "" || s.TTY == "none") &&
-			!s.NoEchoMark && c.Plan != "straddle"
+			!s.NoEchoMark && c.Plan != "straddle" && c.Plan != "pause"
 		if !big && c.Plan != "local" && hashOK && (idx+k)%3 == 0 {
 			// a data line that reads exactly "##" (a banner): legal in a chunk, and delivered to the caller
 			// intact when the reply reaches the client in one read (the generator only does this where the
@@ -663,6 +697,10 @@ func GenSession(r *rand.Rand, idx int) Session {
 		}
 		if s.Profile == "big" && c.Plan == "now" && (huge && q%10 < 7 || !huge && q%10 < 2) {
 			c.Notify = fmt.Sprintf("nt%s-%03d-%08x", tag, k, r.Uint32())
+		}
+		if c.Plan == "pause" {
+			c.HeadPct = 10 + r.Intn(81)
+			c.TailAtMs = s.ConnTimeoutMs*(15+r.Intn(16))/10 + 20 // 1.5-3 x the connection-wide timeout
 		}
 		if c.Plan == "straddle" {
 			c.HeadPct = 10 + r.Intn(81)
